@@ -541,7 +541,7 @@ func checkConversionErrors(c *Ctx, r *Rec, info *types.Info, pms map[string]*ast
 					inspectNoLit(nd, func(y ast.Node) bool {
 						switch e := y.(type) {
 						case *ast.BinaryExpr:
-							if (e.Op == token.NEQ || e.Op == token.EQL) && (isObj(info, e.X, eobj) || isObj(info, e.Y, eobj)) {
+							if (e.Op == token.NEQ || e.Op == token.EQL) && (isObj(info, e.X, eobj) || isObj(info, e.Y, eobj)) && g.errorEdgeDiverges(e) {
 								found = true
 							}
 						case *ast.CallExpr:
@@ -569,7 +569,7 @@ func checkConversionErrors(c *Ctx, r *Rec, info *types.Info, pms map[string]*ast
 							inspectNoLit(nd, func(y ast.Node) bool {
 								switch e := y.(type) {
 								case *ast.BinaryExpr:
-									if (e.Op == token.NEQ || e.Op == token.EQL) && (isObj(info, e.X, eobj) || isObj(info, e.Y, eobj)) {
+									if (e.Op == token.NEQ || e.Op == token.EQL) && (isObj(info, e.X, eobj) || isObj(info, e.Y, eobj)) && g.errorEdgeDiverges(e) {
 										f = true
 									}
 								case *ast.CallExpr:
@@ -589,8 +589,8 @@ func checkConversionErrors(c *Ctx, r *Rec, info *types.Info, pms map[string]*ast
 					}
 				}
 			}
-			r.check(consumed, "D4-conversion-errors", construct, c.pos(call.Pos()), "the error is tested against nil (directly or in a repository helper) before the value is returned",
-				fmt.Sprintf("the error of %s.%s is stored but a path returns the converted value without testing it", cf.Pkg().Name(), cf.Name()))
+			r.check(consumed, "D4-conversion-errors", construct, c.pos(call.Pos()), "the error is tested against nil (directly or in a repository helper) before the value is returned, and the failing case ends differently from the good one",
+				fmt.Sprintf("the error of %s.%s is stored but a path returns the converted value without a test of it that makes the failing case end differently (a panic or another return): unrepresentable text is silently replaced by another value", cf.Pkg().Name(), cf.Name()))
 			return true
 		})
 	}
